@@ -1,11 +1,44 @@
 (* Wire-level wrappers of property C11: decode arguments from sx, run the model, encode.
    Dispatch.v routes a block of unit numbers here; [k] is the offset inside the block. *)
 From Coq Require Import ZArith QArith List Bool.
-From VL Require Import Prelude.Sx.
+From VL Require Import Prelude.Sx Prelude.PyDict Model.GetNBest Model.HighestAverages Model.Threshold Model.Units Model.Conditioned Model.PureProp.
 Import ListNotations.
 Open Scope Z_scope.
 
+(* Conditioned(threshold selector, HighestAverages).  args: (sel divisor votes n prev caps) *)
+Definition u_conditioned_ha (a : sx) : sx :=
+  match a with
+  | L [s; dv; v; A n; p; c] =>
+      match as_sel s, as_divisor dv, as_dict as_pos as_Q v, as_dict as_pos as_Z p, as_dict as_pos as_Z c with
+      | Some s, Some d, Some votes, Some prev, Some caps =>
+          match conditioned_ha s d votes n prev caps with
+          | HA_ok gains tie => ok (L [of_dict of_pos A gains; of_tie tie])
+          | HA_value_error => err E_VALUE
+          end
+      | _, _, _, _, _ => bad_input
+      end
+  | _ => bad_input
+  end.
+
+(* PureProportionality.  args: (votes n prev caps) -> ((cand seats) ...) with exact rational seats *)
+Definition u_pure_proportionality (a : sx) : sx :=
+  match a with
+  | L [v; A n; p; c] =>
+      match as_dict as_pos as_Q v, as_dict as_pos as_Z p, as_dict as_pos as_Z c with
+      | Some votes, Some prev, Some caps =>
+          match pp_evaluate votes n prev caps with
+          | PP_ok seats => ok (of_dict of_pos of_Q seats)
+          | PP_zerodiv => err E_ZERODIV
+          | PP_fuel => err E_FUEL
+          end
+      | _, _, _ => bad_input
+      end
+  | _ => bad_input
+  end.
+
 Definition u_c11 (k : Z) (a : sx) : sx :=
   match k with
+  | 0 => u_conditioned_ha a
+  | 1 => u_pure_proportionality a
   | _ => bad_input
   end.
